@@ -34,70 +34,103 @@ func (r *numSink) StartPath(adj uint8, x, y float32)           { r.sx, r.sy = x,
 func (r *numSink) AbsLineTo(x, y float32)                      { r.lx, r.ly = x, y; r.nCalls++ }
 func (r *numSink) ClosePathEndPath()                           { r.nCalls++ }
 
-// exhaustiveNumbers runs the float32 values of this shard's slice of the 2^32 bit patterns.
+// exhaustiveNumbers runs the float32 values of this shard's slice of the 2^32 bit patterns: each value as
+// both LOD bounds, as a number register, and as the coordinates of a low-resolution and of a
+// high-resolution path, in one encoded graphic.
 func exhaustiveNumbers(s *Shard, nShards int) {
 	lo := uint64(s.Index) << 32 / uint64(nShards)
 	hi := uint64(s.Index+1) << 32 / uint64(nShards)
 	var e encode.Encoder
-	sink := &numSink{}
+	sink := &exhSink{}
 	nFail := 0
-	bad := func(clause string, f float32, hires bool, detail string) {
+	bad := func(clause string, f float32, detail string) {
 		nFail++
 		if nFail > 20 {
 			return
 		}
-		cs := []Call{{Name: "hires", B: hires}, {Name: "lod", F: fl(f, f)}, {Name: "nreg", Adj: 1, F: fl(f)}, {Name: "start", F: fl(f, f)}, {Name: "L", F: fl(f, f)}, {Name: "Z"}}
-		s.Fail(clause, EncCase(cs), fmt.Sprintf("float32 %s (hires=%v): %s", HexF32(f), hires, detail))
+		cs := []Call{{Name: "lod", F: fl(f, f)}, {Name: "nreg", Adj: 1, F: fl(f)}, {Name: "start", F: fl(f, f)}, {Name: "L", F: fl(f, f)}, {Name: "Z"},
+			{Name: "hires", B: true}, {Name: "start", F: fl(f, f)}, {Name: "L", F: fl(f, f)}, {Name: "Z"}}
+		s.Fail(clause, EncCase(cs), fmt.Sprintf("float32 %s: %s", HexF32(f), detail))
 	}
 	for u := lo; u < hi; u++ {
 		f := math.Float32frombits(uint32(u))
-		for _, hires := range []bool{false, true} {
-			e.Reset(ivg.DefaultViewBox, ivg.DefaultPalette)
-			e.HighResolutionCoordinates = hires
-			e.SetLOD(f, f)
-			e.SetNReg(1, false, f)
-			e.StartPath(0, f, f)
-			e.AbsLineTo(f, f)
-			e.ClosePathEndPath()
-			bs, err := e.Bytes()
-			if err != nil {
-				bad("C08.encodes", f, hires, err.Error())
-				continue
+		e.Reset(ivg.DefaultViewBox, ivg.DefaultPalette)
+		e.SetLOD(f, f)
+		e.SetNReg(1, false, f)
+		e.StartPath(0, f, f)
+		e.AbsLineTo(f, f)
+		e.ClosePathEndPath()
+		e.HighResolutionCoordinates = true
+		e.StartPath(0, f, f)
+		e.AbsLineTo(f, f)
+		e.ClosePathEndPath()
+		bs, err := e.Bytes()
+		if err != nil {
+			bad("C08.encodes", f, err.Error())
+			continue
+		}
+		sink.n = 0
+		if derr := decode.Decode(sink, bs); derr != nil || sink.n != 11 {
+			bad("C08.decodes", f, fmt.Sprint("decoding the encoder's bytes: ", derr, ", ", sink.n, " numbers delivered"))
+			continue
+		}
+		v := &sink.v
+		if !RealOK(f, v[0]) || !RealOK(f, v[1]) {
+			bad("C08.real", f, "SetLOD decodes to "+HexF32(v[0])+" "+HexF32(v[1]))
+		}
+		if !NRegOK(f, v[2]) {
+			bad("C08.nreg", f, "SetNReg decodes to "+HexF32(v[2]))
+		}
+		for k := 3; k < 7; k++ {
+			if !CoordOK(f, v[k], false) {
+				bad("C08.coordinate", f, "a low-resolution coordinate decodes to "+HexF32(v[k]))
+				break
 			}
-			*sink = numSink{}
-			if derr := decode.Decode(sink, bs); derr != nil || sink.nCalls != 5 {
-				bad("C08.decodes", f, hires, fmt.Sprint("decoding the encoder's bytes: ", derr, ", ", sink.nCalls, " calls"))
-				continue
+			if -128 <= f && f < 128 && v[k] != nearest64(f) {
+				bad("C08.nearest-64th", f, "decodes to "+HexF32(v[k])+", the nearest multiple of 1/64 is "+HexF32(nearest64(f)))
+				break
 			}
-			if !RealOK(f, sink.lod0) || !RealOK(f, sink.lod1) {
-				bad("C08.real", f, hires, "SetLOD decodes to "+HexF32(sink.lod0)+" "+HexF32(sink.lod1))
+		}
+		for k := 7; k < 11; k++ {
+			if !CoordOK(f, v[k], true) {
+				bad("C08.coordinate", f, "a high-resolution coordinate decodes to "+HexF32(v[k]))
+				break
 			}
-			if !NRegOK(f, sink.nreg) {
-				bad("C08.nreg", f, hires, "SetNReg decodes to "+HexF32(sink.nreg))
-			}
-			for _, g := range []float32{sink.sx, sink.sy, sink.lx, sink.ly} {
-				if !CoordOK(f, g, hires) {
-					bad("C08.coordinate", f, hires, "a coordinate decodes to "+HexF32(g))
-					break
-				}
-				if !hires && -128 <= f && f < 128 && g != nearest64(f) {
-					bad("C08.nearest-64th", f, hires, "decodes to "+HexF32(g)+", the nearest multiple of 1/64 is "+HexF32(nearest64(f)))
-					break
-				}
-			}
-			// shortest forms: 5 header bytes + SetLOD + SetNReg + StartPath + one L + z
-			q := f
-			if !hires {
-				q = nearest64(f)
-			}
-			want := 5 + (1 + 2*realLen(f)) + (1 + minInt(realLen(f), minInt(coordLen(f), z2oLenOf(f)))) + (1 + 2*coordLen(q)) + (1 + 2*coordLen(q)) + 1
-			if len(bs) != want {
-				bad("C08.shortest", f, hires, fmt.Sprintf("%d bytes, the shortest exact forms need %d", len(bs), want))
-			}
+		}
+		// shortest forms (naturals, reals, coordinates): header 5, SetLOD, SetNReg, two paths of start + one L + z.
+		// The number register may also take a zero-to-one form, which the property does not oblige to be minimal:
+		// its length lies between 1 and the shortest real/coordinate form.
+		q := nearest64(f)
+		fixed := 5 + (1 + 2*realLen(f)) + 1 + 2*(1+2*coordLen(q)) + 1 + 2*(1+2*coordLen(f)) + 1
+		nregMax := minInt(realLen(f), coordLen(f))
+		if got := len(bs) - fixed; got > nregMax || got < 1 || (got < nregMax && !(0 <= f && f <= 1)) {
+			bad("C08.shortest", f, fmt.Sprintf("%d bytes: %d for the number register operand, the shortest exact real/coordinate form takes %d", len(bs), got, nregMax))
 		}
 	}
 	s.counts["exhaustive:float32-bit-patterns"] += int(hi - lo)
 }
+
+// exhSink collects the numbers the decoder delivers, in order.
+type exhSink struct {
+	ivg.Destination
+	v [16]float32
+	n int
+}
+
+func (r *exhSink) put(f ...float32) {
+	for _, x := range f {
+		if r.n < len(r.v) {
+			r.v[r.n] = x
+		}
+		r.n++
+	}
+}
+func (r *exhSink) Reset(ivg.ViewBox, [64]color.RGBA)      {}
+func (r *exhSink) SetLOD(a, b float32)                     { r.put(a, b) }
+func (r *exhSink) SetNReg(adj uint8, incr bool, f float32) { r.put(f) }
+func (r *exhSink) StartPath(adj uint8, x, y float32)       { r.put(x, y) }
+func (r *exhSink) AbsLineTo(x, y float32)                  { r.put(x, y) }
+func (r *exhSink) ClosePathEndPath()                       {}
 
 // z2oLenOf: length of the shortest zero-to-one form that represents f exactly (else 4).
 func z2oLenOf(f float32) int {
